@@ -21,6 +21,10 @@ class ThisPredicate[T](Predicate[T]):
             return self.this_predicate(x)
         raise ValueError(f"Could not find 'this' predicate {self}")
 
+    def __eq__(self, other: object) -> bool:
+        # Each reference is its own node: two references are equal only if they are the same object.
+        return self is other
+
     def __repr__(self) -> str:
         return "this_p"
 
